@@ -484,17 +484,6 @@ class SQLiteModel(data_algebra.db_model.DBModel):
         conn.create_aggregate("std", 1, SampStdDevAgg)
         conn.create_aggregate("var", 1, SampVarDevAgg)
 
-    def quote_identifier(self, identifier: str) -> str:
-        """
-        Quote identifier. SQLite gives a sub-query column called true / false another name and then reads
-        the quoted name as a string constant: such a column silently becomes the text 'True'.
-        """
-        if identifier.lower() in ["true", "false"]:
-            raise ValueError(
-                "SQLite can not refer to a column named " + identifier + " (a keyword constant)"
-            )
-        return data_algebra.db_model.DBModel.quote_identifier(self, identifier)
-
     def _emit_right_join_as_left_join(
         self, join_node, *, using=None, temp_id_source, sql_format_options=None
     ):
